@@ -166,7 +166,7 @@ def signature(func, variadic=True, markup=True, safe=False):
 
 
 import sys
-def isvalid(func, *args, **kwds):
+def isvalid(func, /, *args, **kwds):
     """check if func(*args,**kwds) is a valid call for function 'func'
 
     returns True if valid, returns False if an error is thrown"""
@@ -184,7 +184,7 @@ def isvalid(func, *args, **kwds):
             except: pass
         return False
 
-def validate(func, *args, **kwds):
+def validate(func, /, *args, **kwds):
     """validate a function's arguments and keywords against the call signature
 
     Raises an exception when args and kwds do not match the call signature.
@@ -405,7 +405,7 @@ NULL = _Null()
 #    from ordereddict import OrderedDict as odict
 
 from copy import copy
-def _keygen(func, ignored, *args, **kwds):
+def _keygen(func, ignored, /, *args, **kwds):
     """generate a 'key' from the (*args,**kwds) suitable for use in caching
 
     func is the function being called
